@@ -26,6 +26,7 @@ typedef struct fiber {
 	int          block_epfd;    /* >=0: parked in epoll_wait on this fd */
 	int          ep_ready;      /* cached readiness */
 	int          saved_errno;
+	unsigned     tls_key[SIM_MAX_KEYS];   /* thread-specific data: a few (key, value) pairs; keys themselves are unbounded */
 	void        *tls[SIM_MAX_KEYS];
 	int          cur_op;
 	int          joined;
